@@ -208,6 +208,8 @@ pub struct RoleCfg {
     pub default_work: Work,
     /// work performed by tick handlers
     pub tick_work: Work,
+    /// ... except for the n-th tick this role handles (1-based), which does this instead
+    pub slow_tick: Option<(u32, Work)>,
     /// context operation performed by the handler of the Note/Ask with this id (after its work)
     pub msg_actions: Vec<(u32, Action)>,
 }
@@ -226,6 +228,7 @@ impl Default for RoleCfg {
             work: vec![],
             default_work: Work::default(),
             tick_work: Work::default(),
+            slow_tick: None,
             msg_actions: vec![],
         }
     }
@@ -241,6 +244,8 @@ pub struct World {
     pub teardown: bool,
     pub roles: Vec<RoleCfg>,
     pub starts: Vec<u16>,
+    /// per role: ticks handled so far
+    pub ticks: Vec<u32>,
     pub next_inst: u16,
     /// role given to `Probe::<K>::default()`
     pub default_role: [u8; 4],
@@ -258,6 +263,7 @@ impl World {
             teardown: false,
             roles: Vec::new(),
             starts: Vec::new(),
+            ticks: Vec::new(),
             next_inst: 0,
             default_role: [0; 4],
             store: Vec::new(),
@@ -279,6 +285,7 @@ pub fn reset(roles: Vec<RoleCfg>) {
         w.loghash = 0x1234_5678;
         w.teardown = false;
         w.starts = vec![0; roles.len()];
+        w.ticks = vec![0; roles.len()];
         w.roles = roles;
         w.next_inst = 0;
         w.default_role = [0; 4];
@@ -808,7 +815,15 @@ impl<const K: u8> Handler<Tick> for Probe<K> {
             reg_inc: m.reg_inc,
         };
         self.enter(cb);
-        let work = W.with(|w| w.borrow().roles[self.role as usize].tick_work);
+        let work = W.with(|w| {
+            let mut w = w.borrow_mut();
+            let r = self.role as usize;
+            w.ticks[r] += 1;
+            match w.roles[r].slow_tick {
+                Some((n, work)) if n == w.ticks[r] => work,
+                _ => w.roles[r].tick_work,
+            }
+        });
         do_work(work).await;
         self.exit(cb);
     }
